@@ -135,9 +135,13 @@ def grep_forbidden(files):
     return hits
 
 
-FACTS = {"C03": ["Formats", "Dispatch"], "C04": ["Formats"], "C05": ["Formats"], "C18": ["Formats", "Reads", "State"], "C19": ["State"], "C15": ["State"], "C16": ["State"], "C17": ["State"], "C20": ["Formats", "State"],
-         "C09": ["Ranges", "State"], "C08": ["Safety"], "C06": ["Literals", "Dispatch"], "C07": ["Literals", "Dispatch"],
-         "C01": ["Dispatch"], "C10": ["Dispatch"], "C11": ["Dispatch"], "C12": ["Dispatch"], "C13": ["Dispatch"], "C14": ["Dispatch"]}
+# Fact modules per property.  F10 (dispatch order) is split by source file group so that a change in one file
+# disturbs only the checks that rest on it: Files=file.go, Merge=match.go/merge.go/parser.go, Refs=get.go/process1.go,
+# Output=output.go, Eval=process2.go/repeat.go, Escape=finalize.go/validate.go.
+FACTS = {"C01": ["DispatchMerge"], "C02": ["DispatchMerge"], "C03": ["Formats", "DispatchFiles", "DispatchMerge"], "C04": ["Formats"], "C05": ["Formats"],
+         "C06": ["Literals", "DispatchEscape"], "C07": ["Literals", "DispatchEscape", "DispatchMerge"], "C08": ["Safety"], "C09": ["Ranges", "State"],
+         "C10": ["DispatchRefs"], "C11": ["DispatchOutput"], "C12": ["DispatchEval"], "C13": ["DispatchEval"], "C14": ["DispatchEval"],
+         "C15": ["State"], "C16": ["State"], "C17": ["State"], "C18": ["Formats", "Reads", "State"], "C19": ["State"], "C20": ["Formats", "State"]}
 
 
 def audit_axioms(pid):
